@@ -465,7 +465,13 @@ SPEC = Spec(
         "first. R10-CYCLE: the dependency-level search tests, marks, then recurses "
         "and raises on a revisit; the root broadcasts the exception before "
         "re-raising and the others raise what they receive; part cycles are "
-        "converted to PartitionInducedCycleError."),
+        "converted to PartitionInducedCycleError; no entry of the part-graph "
+        "accumulator is assigned after edges were added to it in the same "
+        "iteration; the allreduce operator merging the ranks' dependency tables is "
+        "a key-wise union. The test-then-insert window of a duplicate test contains "
+        "no recursion into children (R10-CHECK-BEFORE-INSERT); the loop over the "
+        "broadcast schedule is guarded by globally agreed values only "
+        "(R10-RAISE-REACH)."),
     not_decided=(
         "That every malformed communication pattern is caught and no well-formed one "
         "is rejected (a for-all over fault positions and topologies)."),
